@@ -66,6 +66,17 @@ Judge(e) ==
            IF r.ok THEN <<>> ELSE <<Item("stage-trace", "the recorded stages of the run are not a behaviour of the pipeline specification", e,
                                          [at |-> r.at, why |-> r.why, event |-> IF r.at \in DOMAIN e.stages THEN e.stages[r.at] ELSE [stage |-> "end"]])>>)
   \o (IF o.otherChanges # <<>> THEN <<Item("project-changed", "something else in the project directory changed", e, o.otherChanges)>> ELSE <<>>)
+  (* a SECOND run in the same directory after some outputs of the first were deleted: same status, every listed file exists afterwards, *)
+  (* nothing is changed that is not listed                                                                                              *)
+  \o (IF ~o.second.ran \/ o.panicked THEN <<>>
+      ELSE (IF o.second.panicked THEN <<Item("panic", "the CLI panicked on the second run", e, 0)>> ELSE <<>>)
+           \o (IF ~o.second.panicked /\ o.second.exit # o.exit THEN <<Item("second-run-status", "a second run on the same project ends with another status", e, o.second.exit)>> ELSE <<>>)
+           \o (IF ~o.second.panicked /\ e.format = "json" /\ ~(ToSet(o.second.listed) \subseteq ToSet(o.second.exists))
+               THEN <<Item("listed-file-missing", "generate lists a file that does not exist after the run", e, ToSet(o.second.listed) \ ToSet(o.second.exists))>> ELSE <<>>)
+           \o (IF ~o.second.panicked /\ ~(x.writes \subseteq ToSet(o.second.exists)) /\ x.exit = 0
+               THEN <<Item("output-missing-after-rerun", "an output of the project does not exist after the second run", e, x.writes \ ToSet(o.second.exists))>> ELSE <<>>)
+           \o (IF ~o.second.panicked /\ e.format = "json" /\ ~(ToSet(o.second.changed) \subseteq ToSet(o.second.listed))
+               THEN <<Item("changed-not-listed", "the second run changed a file it does not list", e, 0)>> ELSE <<>>))
 
 TRun == /\ IsEvent("CliRun")
         /\ LET its == Judge(Rec[l]) IN \A i \in DOMAIN its : PrintT(<<"ITEM", ToJson(its[i])>>)
